@@ -469,6 +469,53 @@ func (r *c11Run) storeOp(op c11Op) {
 	}
 }
 
+// Bounds on everything the driver sends to or awaits from the store.  Inside a bubble the bound is
+// virtual time, far beyond anything the model allows; when it is hit the scenario ends with a
+// direct verdict that names what did not happen (its input is the replay) instead of a deadlock.
+const c11Bound = 1000 * time.Hour
+
+// c11SendTick delivers a tick to the store's poll loop; false: nobody took it.
+func c11SendTick(t *c11Ticker) bool {
+	tm := time.NewTimer(c11Bound)
+	defer tm.Stop()
+	select {
+	case t.ch <- time.Now():
+		return true
+	case <-tm.C:
+		return false
+	}
+}
+
+const c11NoTick = "the poller did not take a tick: the poll loop has exited although the store is open"
+
+// c11Close closes the store; false: Close did not return within the bound.
+func c11Close(st *setec.Store, bound time.Duration) bool {
+	done := make(chan struct{})
+	go func() { st.Close(); close(done) }()
+	tm := time.NewTimer(bound)
+	defer tm.Stop()
+	select {
+	case <-done:
+		return true
+	case <-tm.C:
+		return false
+	}
+}
+
+// closeAndFlush ends a scenario: Close (bounded), then the final flush is recorded - unless the
+// scenario has already ended with a direct verdict, in which case nothing more is judged.
+func (r *c11Run) closeAndFlush(bound time.Duration) {
+	ok := c11Close(r.st, bound)
+	if r.direct != "" {
+		return
+	}
+	if !ok {
+		r.direct = "Close did not return"
+		return
+	}
+	r.emit(true, "X", r.writes())
+}
+
 // c11Caller is one caller of Refresh taking part in a poll (callers are numbered in order of
 // arrival, 0 = the leader; the ticker loop's own call cannot be cancelled).
 type c11Caller struct {
@@ -503,7 +550,10 @@ func (r *c11Run) poll(op c11Op) {
 	var callers []*c11Caller
 	r.emit(true, fmt.Sprintf("R %d", time.Now().UnixNano()), nil)
 	if bg {
-		r.tick.ch <- time.Now()
+		if !c11SendTick(r.tick) {
+			r.direct = c11NoTick
+			return
+		}
 		callers = append(callers, &c11Caller{tick: true})
 	} else {
 		callers = append(callers, r.newCaller())
@@ -540,7 +590,10 @@ func (r *c11Run) poll(op c11Op) {
 				if !hasTick {
 					hasTick = true
 					r.emit(true, fmt.Sprintf("R %d", time.Now().UnixNano()), nil)
-					r.tick.ch <- time.Now() // the loop is idle in its select: received at once
+					if !c11SendTick(r.tick) { // the loop is idle in its select: received at once
+						r.direct = c11NoTick
+						return
+					}
 					callers = append(callers, &c11Caller{tick: true})
 					synctest.Wait()
 					r.joins++
@@ -578,6 +631,10 @@ func (r *c11Run) poll(op c11Op) {
 			ans.err = api.ErrAccessDenied
 		case hook.Fail == 3:
 			ans.err = errors.New("scripted transport failure")
+		case hook.Fail == 4: // the transport gave up on this one request (its own timeout), the caller's context is live
+			ans.err = fmt.Errorf("Get %q: %w", p.name, context.Canceled)
+		case hook.Fail == 5:
+			ans.err = fmt.Errorf("Get %q: %w", p.name, context.DeadlineExceeded)
 		case !present:
 			ans.err = api.ErrNotFound
 		case v == p.old && !hook.Full:
@@ -739,8 +796,7 @@ func c11Scenario(in c11Input) (rec Record) {
 			r.poll(op)
 		}
 	}
-	st.Close()
-	r.emit(true, "X", r.writes())
+	r.closeAndFlush(c11Bound)
 	var nameT []string
 	for _, n := range in.Names[:in.NDecl] {
 		nameT = append(nameT, coqBytes([]byte(n)))
@@ -806,7 +862,9 @@ func c11Cadence(in c11Input) Record {
 	}
 	// long enough for Periods ticks at the longest admissible period, short of one more at the shortest
 	time.Sleep(time.Duration(int64(in.Periods)*(i+i/10) + 1))
-	st.Close()
+	if !c11Close(st, c11Bound) {
+		return Record{Kind: "cad", Input: in, Direct: &DirectVerdict{OK: false, What: "Close did not return"}}
+	}
 	svc.mu.Lock()
 	ts := append([]int64(nil), svc.reqT...)
 	svc.mu.Unlock()
@@ -867,7 +925,9 @@ func c11CadenceSlow(in c11Input) Record {
 		}
 	}
 	time.Sleep(time.Duration(total))
-	st.Close()
+	if !c11Close(st, c11Bound) {
+		return Record{Kind: "cads", Input: in, Direct: &DirectVerdict{OK: false, What: "Close did not return"}}
+	}
 	svc.mu.Lock()
 	ts := append([]int64(nil), svc.reqT...)
 	te := append([]int64(nil), svc.reqEnd...)
@@ -1069,8 +1129,7 @@ func c11CacheWrite(in c11Input) (rec Record) {
 			val := h.Get()
 			r.emit(true, fmt.Sprintf("G %s %d", coqBytes([]byte(lname)), now0), []string{fmt.Sprintf("ov (Some %d)", r.svc.token(val))})
 		}
-		st.Close()
-		r.emit(true, "X", r.writes())
+		r.closeAndFlush(5 * time.Second)
 	}
 	for len(W) > 0 { // documents nobody accounts for
 		r.emit(true, "X", nextW())
@@ -1174,8 +1233,7 @@ func c11CacheWriteLookup(r *c11Run, in c11Input, lname string, now0 int64, sv0, 
 		r.svc.reqLog = nil
 		r.svc.mu.Unlock()
 		r.emit(true, "E_", append(r.writes(), c11Class(err)))
-		st.Close()
-		r.emit(true, "X", r.writes())
+		r.closeAndFlush(5 * time.Second)
 	}
 	var nameT []string
 	for _, n := range in.Names[:in.NDecl] {
@@ -1313,7 +1371,10 @@ func c11TwoStores(in c11Input) []Record {
 		other.emit(true, fmt.Sprintf("R %d", time.Now().UnixNano()), nil)
 		var oc *c11Caller
 		if in.OTick {
-			other.tick.ch <- time.Now()
+			if !c11SendTick(other.tick) {
+				other.direct = c11NoTick
+				break
+			}
 		} else {
 			oc = other.newCaller()
 		}
@@ -1402,10 +1463,8 @@ func c11TwoStores(in c11Input) []Record {
 			held.storeOp(c11Op{K: "read", N: i})
 		}
 	}
-	rA.st.Close()
-	rA.emit(true, "X", rA.writes())
-	rB.st.Close()
-	rB.emit(true, "X", rB.writes())
+	rA.closeAndFlush(c11Bound)
+	rB.closeAndFlush(c11Bound)
 	kb, _ := json.Marshal(in)
 	mk := func(r *c11Run, head func([]string) string, which string) Record {
 		rec := Record{Kind: "two", Input: in, Obs: r.obs, Coq: head(r.steps), Key: string(kb) + "/" + which, Nontrivial: true,
@@ -1457,7 +1516,7 @@ func c11Hooks(rng *rand.Rand, nNames int, intensity int) []c11Hook {
 			}
 		}
 		if rng.IntN(100) < 14 {
-			hs[i].Fail = 1 + rng.IntN(3)
+			hs[i].Fail = 1 + rng.IntN(5)
 		}
 		if rng.IntN(100) < 8 {
 			hs[i].Full = true
@@ -1667,6 +1726,51 @@ func c11SystematicWFail() []c11Input {
 	return out
 }
 
+// c11SystematicTransportCancel: a request of a TICKER-driven poll is cancelled by the transport
+// (context.Canceled / DeadlineExceeded wrapped in the client's error while the store's own context
+// is live): the poll fails; the poll loop must go on: the next ticks are taken and their polls run.
+func c11SystematicTransportCancel() []c11Input {
+	var out []c11Input
+	for k := 1; k <= 3; k++ {
+		for p := 0; p < k; p++ {
+			for kind := 4; kind <= 5; kind++ {
+				in := c11Input{Kind: "scn", NDecl: k}
+				for i := 0; i < k; i++ {
+					in.Names = append(in.Names, fmt.Sprintf("d%d", i))
+					in.Vers = append(in.Vers, 2)
+					in.Active = append(in.Active, 1)
+				}
+				for i := 0; i < k; i++ {
+					in.Ops = append(in.Ops, c11Op{K: "srv", N: i, Sub: "act", V: 1})
+				}
+				hs := make([]c11Hook, k)
+				hs[p].Fail = kind
+				in.Ops = append(in.Ops, c11Op{K: "tick", Hooks: hs}, c11Op{K: "sleep", D: 5e9}, c11Op{K: "tick"})
+				for i := 0; i < k; i++ {
+					in.Ops = append(in.Ops, c11Op{K: "secret", N: i}, c11Op{K: "read", N: i})
+				}
+				in.Ops = append(in.Ops, c11Op{K: "srv", N: 0, Sub: "act", V: 0}, c11Op{K: "tick"}, c11Op{K: "read", N: 0})
+				out = append(out, in)
+			}
+		}
+	}
+	return out
+}
+
+// c11Bubble runs one scenario in a synctest bubble and turns a synctest deadlock ("all goroutines
+// in bubble are blocked" / "main bubble goroutine has exited but blocked goroutines remain") into
+// data: the panic is recovered (the bubble's goroutines stay blocked and are abandoned), the text is
+// returned, and the run goes on with the next scenario.
+func c11Bubble(t *testing.T, scenario func(t *testing.T)) (dead string) {
+	defer func() {
+		if p := recover(); p != nil {
+			dead = fmt.Sprintf("the scenario deadlocked: %v", p)
+		}
+	}()
+	bubble(t, scenario)
+	return ""
+}
+
 func runC11(o Opts) {
 	out := NewOut(o.Out)
 	inTest(func(t *testing.T) {
@@ -1676,7 +1780,16 @@ func runC11(o Opts) {
 			var rec Record
 			if in.Kind == "two" {
 				var recs []Record
-				bubble(t, func(t *testing.T) { recs = c11TwoStores(in) })
+				if dead := c11Bubble(t, func(t *testing.T) { recs = c11TwoStores(in) }); dead != "" {
+					if len(recs) == 0 {
+						recs = []Record{{Kind: "two", Input: in}}
+					}
+					for i := range recs {
+						if recs[i].Direct == nil {
+							recs[i].Direct = &DirectVerdict{OK: false, What: dead}
+						}
+					}
+				}
 				for _, r := range recs {
 					r.Corpus = corpus
 					out.Emit(r)
@@ -1686,7 +1799,7 @@ func runC11(o Opts) {
 			if in.Kind == "cw" { // real goroutines, real time (a goroutine blocked on the store's mutex is not "durably blocked" for synctest)
 				rec = c11CacheWrite(in)
 			} else {
-				bubble(t, func(t *testing.T) {
+				dead := c11Bubble(t, func(t *testing.T) {
 					switch in.Kind {
 					case "cad":
 						rec = c11Cadence(in)
@@ -1696,6 +1809,14 @@ func runC11(o Opts) {
 						rec = c11Scenario(in)
 					}
 				})
+				if dead != "" && rec.Direct == nil {
+					// the scenario did not get to its end (or left goroutines blocked for ever) and no
+					// bounded wait had named the cause: attribute the deadlock to this input
+					if rec.Kind == "" {
+						rec = Record{Kind: in.Kind, Input: in}
+					}
+					rec.Direct = &DirectVerdict{OK: false, What: dead}
+				}
 			}
 			rec.Corpus = corpus
 			id := out.n
@@ -1724,6 +1845,9 @@ func runC11(o Opts) {
 			runOne(in, "")
 		}
 		for _, in := range c11SystematicWFail() {
+			runOne(in, "")
+		}
+		for _, in := range c11SystematicTransportCancel() {
 			runOne(in, "")
 		}
 		n := 300
